@@ -681,10 +681,238 @@ def gen_c15(read, num):
     return lines, broken
 
 
+def _strip_ws(text):
+    text = re.sub(r"//[^\n]*", "", text)
+    return re.sub(r"\s+", "", text)
+
+
+def _bytes_lit(sv):
+    return "[" + ", ".join(str(b) for b in sv.encode("utf-8")) + "]"
+
+
+def gen_c18(read, num):
+    """C18 (behaviours) part: the message tags, arities and dispatch order of `GenServerProcess::handle_message` and
+    `GenEventManager::handle_message`, the layout of a reply, whether a failed reply send is propagated, and the reasons
+    handed to `terminate`, as written in gen_server.rs / gen_event.rs."""
+    broken = []
+    lines = []
+    gs = read("crates/edp_node/src/gen_server.rs")
+    gs_tags = {"call": "", "cast": ""}
+    gs_chain = []
+    gs_min = 0
+    gs_from = 0
+    gs_ref_first = False
+    gs_prop = -1
+    gs_term = ""
+    if gs is None:
+        broken.append("gen_server.rs missing")
+    else:
+        t = _strip_ws(gs)
+        for f in gs_tags:
+            m = re.search(f + r'_tag:Atom::new\("([^"]*)"\)', t)
+            if not m:
+                broken.append(f'gen_server.rs: `{f}_tag: Atom::new("…")` not found')
+            else:
+                gs_tags[f] = m.group(1)
+        body = _fn_body(gs, r"async\s+fn\s+handle_message\s*\(\s*&mut\s+self\s*,\s*msg\s*:\s*Message\s*\)[^{]*\{")
+        if body is None:
+            broken.append("gen_server.rs: fn handle_message body not found")
+        else:
+            b = _strip_ws(body)
+            gs_chain = [(f, num(n)) for f, n in re.findall(r"tag==&self\.([a-z_]+)_tag&&elements\.len\(\)==(\d+)", b)]
+            m = re.search(r"ifletOwnedTerm::Tuple\(elements\)=&body&&elements\.len\(\)>=(\d+)&&letOwnedTerm::Atom\(tag\)=&elements\[0\]", b)
+            if not m:
+                broken.append("gen_server.rs handle_message: guard `Tuple(elements) && elements.len() >= n && Atom(tag) = elements[0]` not found")
+            else:
+                gs_min = num(m.group(1))
+            m = re.search(r"ifletOwnedTerm::Tuple\(from_tuple\)=&elements\[1\]&&from_tuple\.len\(\)==(\d+)&&letOwnedTerm::Pid\(from_pid\)=&from_tuple\[0\]&&letOwnedTerm::Reference\(reference\)=&from_tuple\[1\]", b)
+            if not m:
+                broken.append("gen_server.rs handle_message: the `{Pid, Reference}` test of the call's `from` not found")
+            else:
+                gs_from = num(m.group(1))
+            if "letrequest=elements[2].clone();" not in b or "self.handle_gen_cast(elements[1].clone())" not in b:
+                broken.append("gen_server.rs handle_message: request positions (elements[2] for a call, elements[1] for a cast) changed")
+            if not b.rstrip().endswith("self.server.handle_info(body).await}Message::Control{..}=>Ok(()),Message::Exit{reason,..}=>{self.server.terminate(reason).await;Ok(())}_=>Ok(()),}"):
+                broken.append("gen_server.rs handle_message: the fall-through to handle_info / the Control, Exit and `_` arms changed")
+        call = _fn_body(gs, r"async\s+fn\s+handle_gen_call\s*\(")
+        if call is None:
+            broken.append("gen_server.rs: fn handle_gen_call body not found")
+        else:
+            c = _strip_ws(call)
+            gs_ref_first = "OwnedTerm::Tuple(vec![OwnedTerm::Reference(reference),reply])" in c
+            if not gs_ref_first:
+                broken.append("gen_server.rs handle_gen_call: reply is no longer `Tuple(vec![Reference(reference), reply])`")
+            if "self.server.handle_call(request,from_pid.clone()).await?" not in c:
+                broken.append("gen_server.rs handle_gen_call: `handle_call(request, from_pid.clone()).await?` not found")
+            if "ifletSome(handle)=self.registry.get(&from_pid).await{" not in c:
+                broken.append("gen_server.rs handle_gen_call: the reply no longer goes through `registry.get(&from_pid)`")
+            sends = re.findall(r"\.send\(Message::Regular\{from:None,body:reply_msg,?\}\)\.await(\??)", c)
+            if len(sends) != 1:
+                broken.append("gen_server.rs handle_gen_call: expected exactly one reply send")
+            else:
+                gs_prop = 1 if sends[0] == "?" else 0
+        m = re.search(r'asyncfnterminate\(&mutself\)\{self\.server\.terminate\(OwnedTerm::Atom\(Atom::new\("([a-z]+)"\)\)\)\.await;\}', _strip_ws(gs))
+        if not m:
+            broken.append("gen_server.rs: Process::terminate no longer hands an atom to the server's terminate")
+        else:
+            gs_term = m.group(1)
+    ge = read("crates/edp_node/src/gen_event.rs")
+    ge_tags = {"notify": "", "sync_notify": "", "call": "", "which_handlers": ""}
+    ge_chain = []
+    ge_prop = -1
+    ge_reasons = []
+    ge_atoms = []
+    if ge is None:
+        broken.append("gen_event.rs missing")
+    else:
+        t = _strip_ws(ge)
+        for f in ge_tags:
+            m = re.search(r"\b" + f + r'_tag:Atom::new\("([^"]*)"\)', re.sub(r"//[^\n]*", "", ge).replace(" ", ""))
+            if not m:
+                broken.append(f'gen_event.rs: `{f}_tag: Atom::new("…")` not found')
+            else:
+                ge_tags[f] = m.group(1)
+        body = _fn_body(ge, r"async\s+fn\s+handle_message\s*\(\s*&mut\s+self\s*,\s*msg\s*:\s*Message\s*\)[^{]*\{")
+        if body is None:
+            broken.append("gen_event.rs: fn handle_message body not found")
+        else:
+            b = _strip_ws(body)
+            ge_chain = [(f, num(n)) for f, n in re.findall(r"tag==&self\.([a-z_]+)_tag&&elements\.len\(\)==(\d+)", b)]
+            ge_prop = len(re.findall(r"\.send\(Message::Regular\{from:None,body:[^}]*\}\)\.await\?", b))
+            nsend = len(re.findall(r"\.send\(Message::Regular\{", b))
+            if nsend != 3:
+                broken.append(f"gen_event.rs handle_message: expected three reply sends, found {nsend}")
+            ge_atoms = re.findall(r'OwnedTerm::Atom\(Atom::new\("([a-z]+)"\)\)', b)
+            if "OwnedTerm::Tuple(vec![OwnedTerm::Reference(reference.clone()),reply,])" not in b or \
+               "OwnedTerm::Tuple(vec![OwnedTerm::Reference(reference.clone()),OwnedTerm::List(handlers),])" not in b:
+                broken.append("gen_event.rs handle_message: replies are no longer `Tuple(vec![Reference(reference), …])`")
+            if "lethandler_id=elements[2].clone();letrequest=elements[3].clone();" not in b:
+                broken.append("gen_event.rs handle_message: handler id / request positions of a call changed")
+        ge_reasons = re.findall(r'\.terminate\(OwnedTerm::Atom\(Atom::new\("([a-z]+)"\)\)\)', t)
+
+    def pairs(xs):
+        return "[" + ", ".join(f'("{f}", {n})' for f, n in xs) + "]"
+
+    def strs(xs):
+        return "[" + ", ".join('"' + x + '"' for x in xs) + "]"
+
+    lines.append("/-- `call_tag` / `cast_tag` of `GenServerProcess::new` (gen_server.rs), as UTF-8 bytes -/")
+    lines.append(f"def GS_CALL_TAG : List UInt8 := {_bytes_lit(gs_tags['call'])}")
+    lines.append(f"def GS_CAST_TAG : List UInt8 := {_bytes_lit(gs_tags['cast'])}")
+    lines.append("/-- the `tag == &self.<f>_tag && elements.len() == n` tests of `GenServerProcess::handle_message`, in textual order -/")
+    lines.append(f"def GS_DISPATCH : List (String × Nat) := {pairs(gs_chain)}")
+    lines.append("/-- the `elements.len() >= n` of the outer guard, and the `from_tuple.len() == n` of a call's `from` -/")
+    lines.append(f"def GS_MIN_ARITY : Nat := {gs_min}")
+    lines.append(f"def GS_FROM_ARITY : Nat := {gs_from}")
+    lines.append("/-- the reply is `Tuple(vec![Reference(reference), reply])` -/")
+    lines.append(f"def GS_REPLY_REF_FIRST : Bool := {'true' if gs_ref_first else 'false'}")
+    lines.append("/-- number of reply sends in `handle_gen_call` whose error is propagated with `?` -/")
+    lines.append(f"def GS_REPLY_ERRORS_PROPAGATED : Nat := {max(gs_prop, 0) if gs_prop >= 0 else 99}")
+    lines.append("/-- the reason `Process::terminate` of a `GenServerProcess` hands to the server's `terminate` -/")
+    lines.append(f"def GS_TERMINATE_REASON : List UInt8 := {_bytes_lit(gs_term)}")
+    lines.append("")
+    lines.append("/-- the tags of `GenEventManager::new` (gen_event.rs), as UTF-8 bytes -/")
+    lines.append(f"def GE_NOTIFY_TAG : List UInt8 := {_bytes_lit(ge_tags['notify'])}")
+    lines.append(f"def GE_SYNC_NOTIFY_TAG : List UInt8 := {_bytes_lit(ge_tags['sync_notify'])}")
+    lines.append(f"def GE_CALL_TAG : List UInt8 := {_bytes_lit(ge_tags['call'])}")
+    lines.append(f"def GE_WHICH_TAG : List UInt8 := {_bytes_lit(ge_tags['which_handlers'])}")
+    lines.append("/-- the `tag == &self.<f>_tag && elements.len() == n` tests of `GenEventManager::handle_message`, in textual order -/")
+    lines.append(f"def GE_DISPATCH : List (String × Nat) := {pairs(ge_chain)}")
+    lines.append("/-- number of reply sends in `GenEventManager::handle_message` whose error is propagated with `?` -/")
+    lines.append(f"def GE_REPLY_ERRORS_PROPAGATED : Nat := {ge_prop if ge_prop >= 0 else 99}")
+    if len(ge_atoms) != 2:
+        broken.append("gen_event.rs handle_message: expected two atoms (acknowledgement of sync_notify, reply to a failed call)")
+        ge_atoms = (ge_atoms + ["", ""])[:2]
+    if len(ge_reasons) != 7:
+        broken.append("gen_event.rs: expected seven `terminate(Atom(..))` sites (delete_handler; notify: swap, removal; call_handler: Remove, swap, Err; Process::terminate)")
+        ge_reasons = (ge_reasons + [""] * 7)[:7]
+    lines.append("/-- the atoms `GenEventManager::handle_message` builds, in textual order: the acknowledgement of a sync_notify, the")
+    lines.append("reply to a call whose handler is missing or failed -/")
+    lines.append(f"def GE_ACK_ATOM : List UInt8 := {_bytes_lit(ge_atoms[0])}")
+    lines.append(f"def GE_CALL_ERROR_ATOM : List UInt8 := {_bytes_lit(ge_atoms[1])}")
+    lines.append("/-- the reasons handed to a handler's `terminate` in gen_event.rs, in textual order -/")
+    for name, r in zip(("DELETE", "EVENT_SWAP", "EVENT_REMOVE", "CALL_REMOVE", "CALL_SWAP", "CALL_ERR", "SHUTDOWN"), ge_reasons):
+        lines.append(f"def GE_REASON_{name} : List UInt8 := {_bytes_lit(r)}")
+    lines.append("")
+    return lines, broken
+
+
+def gen_c19(read, num):
+    """C19 part: the arms of `Node::route_message` (which `ControlMessage` variants are routed, by which fields, into which
+    `Message`), the errors `concerns_one_frame_only` lets the receiver loop survive, and the idle limit, from node.rs."""
+    broken = []
+    lines = []
+    src = read("crates/edp_node/src/node.rs")
+    arms = []
+    default_ignored = False
+    skipped = []
+    tick_ms = 0
+    if src is None:
+        broken.append("node.rs missing")
+    else:
+        body = _fn_body(src, r"async\s+fn\s+route_message\s*\(")
+        if body is None:
+            broken.append("node.rs: fn route_message body not found")
+        else:
+            b = _strip_ws(body)
+            if not b.startswith("matchcontrol_msg{"):
+                broken.append("node.rs route_message: does not start with `match control_msg {`")
+            heads = list(re.finditer(r"((?:\|?ControlMessage::[A-Za-z0-9]+\{[a-z_,.]*\})+)=>\{", b))
+            for i, m in enumerate(heads):
+                end = heads[i + 1].start() if i + 1 < len(heads) else len(b)
+                block = b[m.end():end]
+                variants = re.findall(r"ControlMessage::([A-Za-z0-9]+)\{", m.group(1))
+                fields = sorted(set(f for f in re.findall(r"[a-z_]+", re.sub(r"ControlMessage::[A-Za-z0-9]+", "", m.group(1))) if f))
+                msgs = sorted(set(re.findall(r"Message::([A-Za-z]+)\{", block)))
+                lookup = []
+                if "registry.whereis(&name)" in block:
+                    lookup.append("whereis")
+                if re.search(r"registry\.get\(&(?:pid|to)\)", block):
+                    lookup.append("get")
+                if "pending_rpcs.remove(" in block:
+                    lookup.append("rpc")
+                if len(msgs) != 1:
+                    broken.append(f"node.rs route_message: arm {variants} builds {msgs}, expected exactly one Message variant")
+                arms.append((variants, fields, msgs[0] if msgs else "", lookup))
+            default_ignored = b.rstrip().endswith("_=>{}}Ok(())")
+            if not arms:
+                broken.append("node.rs route_message: no `ControlMessage::X { .. } => {` arm found")
+        m = re.search(r"fnconcerns_one_frame_only\(e:&edp_client::Error\)->bool\{matches!\(e,((?:\|?edp_client::Error::[A-Za-z]+\(_\))+)\)\}", _strip_ws(src))
+        if not m:
+            broken.append("node.rs: concerns_one_frame_only is no longer a `matches!` over `edp_client::Error::X(_)` variants")
+        else:
+            skipped = re.findall(r"Error::([A-Za-z]+)\(_\)", m.group(1))
+        t = _strip_ws(src)
+        if "Err(e)=>{ifSelf::concerns_one_frame_only(&e){" not in t or "continue;}" not in t or "break;}}}connections.remove(&remote_node_clone);" not in t:
+            broken.append("node.rs spawn_receiver_task: `if concerns_one_frame_only(&e) { …; continue; } …; break;` followed by `connections.remove` not found")
+        m = re.search(r"const\s+DEFAULT_NET_TICK_TIME\s*:\s*Duration\s*=\s*Duration\s*::\s*from_(secs|millis)\s*\(\s*([0-9_]+)\s*\)\s*;", src)
+        if not m:
+            broken.append("node.rs: const DEFAULT_NET_TICK_TIME: Duration = Duration::from_secs|from_millis(<n>); not found")
+        else:
+            tick_ms = num(m.group(2)) * (1000 if m.group(1) == "secs" else 1)
+
+    def strs(xs):
+        return "[" + ", ".join('"' + x + '"' for x in xs) + "]"
+
+    lines.append("/-- the arms of `Node::route_message` (node.rs) in source order: the `ControlMessage` variants of the pattern, the")
+    lines.append("fields the pattern binds, the `Message` variant the arm sends, the lookups it makes -/")
+    lines.append("def ROUTE_ARMS : List (List String × List String × String × List String) := [")
+    lines.append(",\n".join(f"  ({strs(v)}, {strs(f)}, \"{m}\", {strs(l)})" for v, f, m, l in arms))
+    lines.append("]")
+    lines.append("/-- the match of `route_message` ends in `_ => {}` -/")
+    lines.append(f"def ROUTE_DEFAULT_IGNORED : Bool := {'true' if default_ignored else 'false'}")
+    lines.append("/-- the `edp_client::Error` variants after which the receiver loop `continue`s (`concerns_one_frame_only`) -/")
+    lines.append(f"def RECEIVER_SKIPPED_ERRORS : List String := {strs(skipped)}")
+    lines.append("/-- `DEFAULT_NET_TICK_TIME` of node.rs in milliseconds (the idle limit of a node's receiver) -/")
+    lines.append(f"def NODE_NET_TICK_TIME_MS : Nat := {tick_ms}")
+    lines.append("")
+    return lines, broken
+
+
 def run(read, emit, num):
     body = "namespace Edp.Gen\n\n"
     broken = []
-    for part in (gen_c16, gen_c09, gen_c04, gen_c15, gen_c13):
+    for part in (gen_c16, gen_c09, gen_c04, gen_c15, gen_c13, gen_c18, gen_c19):
         ls, br = part(read, num)
         body += "\n".join(ls) + "\n"
         broken += br
